@@ -369,12 +369,76 @@ func c14Fix(w *W, id int) {
 	}
 	var history []string
 	var touched []hrec
-	rounds := 1 + rng.Intn(3)
+	// by-day lookups made BEFORE later fix-ups (a memo of by-day results must not survive a fix-up), and the objects they
+	// returned are then modified through their public setters (returned records must not be shared with the table)
+	lookupAndScribble := func() {
+		var days []string
+		for d := range model {
+			days = append(days, d)
+		}
+		sort.Strings(days)
+		for k := 0; k < 6 && len(days) > 0; k++ {
+			d := days[rng.Intn(len(days))]
+			if k < len(touched) {
+				d = touched[len(touched)-1-k].day
+			}
+			want := "nil"
+			if r, ok := model[d]; ok {
+				want = r.String()
+			}
+			h := HolidayUtil.GetHoliday(dash(d))
+			if got := holStr(h); got != want {
+				w.Violatef("by-day", fmt.Sprintf("fix%d/mid/%s", id, d), "after Fix %s: GetHoliday(%s)=%s, record set has %s", strings.Join(history, " | "), dash(d), got, want)
+			}
+			if h != nil {
+				h.SetName("改名")
+				h.SetWork(!h.IsWork())
+				h.SetTarget("1999-09-09")
+				if got := holStr(HolidayUtil.GetHoliday(dash(d))); got != want {
+					w.Violatef("returned-object-shared", fmt.Sprintf("fix%d/%s", id, d), "GetHoliday(%s) returned %s after an earlier result for the same day was modified through its setters; the record set has %s", dash(d), got, want)
+				}
+			}
+			w.Eval(2)
+		}
+	}
+	rounds := 1 + rng.Intn(4)
 	for round := 0; round < rounds; round++ {
 		var newNames []string
-		if rng.Intn(4) == 0 && len(names) < 12 {
+		switch {
+		case round == 0 && rng.Intn(3) == 0:
+			// a long name list from the start: indexes 10+ are stored as ':' ';' '<' ...
+			newNames = append([]string{}, names...)
+			for len(newNames) < 11+rng.Intn(4) {
+				newNames = append(newNames, fmt.Sprintf("新节日%d", len(newNames)))
+			}
+		case rng.Intn(4) == 0 && len(names) < 14:
 			newNames = append(append([]string{}, names...), fmt.Sprintf("新节日%d", len(names)))
+		case rng.Intn(5) == 0:
+			// rename an entry (same length list): every record using it must show the new name in every view
+			newNames = append([]string{}, names...)
+			k := rng.Intn(len(newNames))
+			old := newNames[k]
+			newNames[k] = old + "改"
+			for d, r := range model {
+				if r.name == old {
+					r.name = newNames[k]
+					model[d] = r
+					touched = append(touched, r)
+				}
+			}
+		}
+		if newNames != nil {
 			names = newNames
+		}
+		if newNames != nil && rng.Intn(3) == 0 {
+			// names-only fix-up
+			history = append(history, fmt.Sprintf("names(%d) only", len(newNames)))
+			if pv := Call(func() { HolidayUtil.Fix(newNames, "") }); pv != nil {
+				w.Violatef("fix", fmt.Sprintf("%d/panic-names", id), "Fix(names, \"\") panicked: %v", pv)
+				return
+			}
+			lookupAndScribble()
+			continue
 		}
 		nseg := 1 + rng.Intn(6)
 		dt := ""
@@ -405,8 +469,13 @@ func c14Fix(w *W, id int) {
 					}
 					day = fmt.Sprintf("%04d%02d%02d", fs.GetYear(), fs.GetMonth(), fs.GetDay())
 				}
-			default: // an existing record (replace or remove)
+			default: // an existing record (replace or remove), preferably one this scenario added or changed earlier
 				day = existing[rng.Intn(len(existing))]
+				if len(touched) > 0 && rng.Intn(2) == 0 {
+					if cand := touched[rng.Intn(len(touched))].day; model[cand].day != "" {
+						day = cand
+					}
+				}
 			}
 			if used[day] {
 				continue
@@ -449,6 +518,7 @@ func c14Fix(w *W, id int) {
 			w.Violatef("fix", fmt.Sprintf("%d/panic", id), "Fix(%v, %q) after %v panicked: %v", newNames, dt, history[:len(history)-1], pv)
 			return
 		}
+		lookupAndScribble()
 	}
 	ctx := fmt.Sprintf("after Fix %s", strings.Join(history, " | "))
 	if len(ctx) > 300 {
